@@ -2,7 +2,12 @@
 import os
 from vlib import common as C, coapgen as G
 
-# MANIFEST is defined only once the check is clean on the unchanged tree at seeds 1..5 (FRAMEWORK.md §1).
+# clean (exit 0 + KNOWN-FINDING) at seeds 1..5 on 2026-09-26; the text leads with what is NOT proved.
+MANIFEST = {
+    "text": "PARTIAL. Proved in Lean for all messages and all three framings: decode(encode m) = m for every well-formed message (udp, tcp with four length forms, ws), the 13/14 header scheme is a bijection, any insertion order yields ascending options with insertion order kept among equals (about the specification S); M's serialised bytes = Spec.encode and the decoder's view of a built PDU is the abstract message (about the transcription M of libcoap's builders). NOT proved: that M's out-of-order path (coap_insert_option) refines S, and that every refused call is a no-op — the latter is false on the current tree (open finding: a refused Proxy-Uri/Proxy-Scheme on a request leaves Hop-Limit behind; kernel-checked witness). Those parts rest on differential runs only: I vs M vs S on generated API call scripts, per-call buffer digests, bytes compared with Spec.encode.",
+    "note": 'Trusted: Lean kernel (+ propext, Classical.choice, Quot.sound), T1 extractor, harness/generators, the hand transcription M (checked against the compiled code on the cases run only; no model-branch coverage is reported). Three libcoap defects fixed on the way (f8194f9, 6eac10e, 0dbb6d3), one open. Exit 0 depends on the unproved theorems being declared in NOT_PROVED rather than required.',
+    "design_ref": "design/C01.md, DESIGN.md §4 C01",
+}
 
 LEAN_MODULES = ["CoapVerif.Props.C01"]
 NAMESPACE = "Coap.C01"
